@@ -33,6 +33,7 @@ func runGlobalMapWrite(p *core.Program, r *core.Report) {
 	}
 	// static callers
 	callers := map[*ssa.Function][]ssa.CallInstruction{}
+	referenced := map[*ssa.Function]bool{} // used as a value somewhere
 	for _, fn := range p.RepoFns {
 		core.Instrs(fn, func(ins ssa.Instruction) {
 			if c, ok := ins.(ssa.CallInstruction); ok {
@@ -40,7 +41,31 @@ func runGlobalMapWrite(p *core.Program, r *core.Report) {
 					callers[callee] = append(callers[callee], c)
 				}
 			}
+			for _, op := range ins.Operands(nil) {
+				if *op == nil {
+					continue
+				}
+				if f, ok := (*op).(*ssa.Function); ok {
+					if c, isCall := ins.(ssa.CallInstruction); !isCall || c.Common().Value != *op {
+						referenced[f] = true
+					}
+				}
+				if mc, ok := (*op).(*ssa.MakeClosure); ok {
+					if f, ok := mc.Fn.(*ssa.Function); ok {
+						referenced[f] = true
+					}
+				}
+			}
 		})
+	}
+	// an unexported function nobody calls or refers to does not run on this
+	// platform (helpers kept for other operating systems)
+	unreachable := func(f *ssa.Function) bool {
+		f = core.Outer(f)
+		if obj := f.Object(); obj == nil || obj.Exported() {
+			return false
+		}
+		return len(callers[f]) == 0 && !referenced[f] && f.Name() != "init" && !strings.HasPrefix(f.Name(), "init#") && f.Signature.Recv() == nil
 	}
 	isLockCall := func(ins ssa.Instruction, names ...string) bool {
 		c, ok := ins.(*ssa.Call)
@@ -190,6 +215,8 @@ func runGlobalMapWrite(p *core.Program, r *core.Report) {
 		seen[construct] = true
 		pos := p.InsPos(s.ins)
 		switch {
+		case unreachable(fn):
+			r.OK(rule, construct, pos, "the function is not called or referred to in this build configuration")
 		case isInitOnly(core.Outer(fn), 0):
 			r.OK(rule, construct, pos, "runs only during package initialisation (single goroutine)")
 		case guarded(s.ins, 0):
